@@ -100,6 +100,38 @@ func Supervise(m *Monitor, env *Env) *Summary {
 		queue = append(queue, batch{a, b})
 	}
 	var mu sync.Mutex
+	// The batch watchdog is sized for a loaded machine (timeout). Once a few batches of this run have finished, later
+	// (re-queued) batches get a watchdog relative to what this run's batches actually take: 40 x the 90th percentile
+	// + 120 s, at least 300 s, never more than the configured one. A run in which some cases never return therefore
+	// ends in minutes, not hours, and a uniformly slow machine stretches the watchdog with it.
+	var durs []float64
+	adaptive := func() int {
+		if len(durs) < 4 {
+			return timeout
+		}
+		d := append([]float64{}, durs...)
+		sort.Float64s(d)
+		t := int(40*d[len(d)*9/10]) + 120
+		if t < 300 {
+			t = 300
+		}
+		if t > timeout {
+			t = timeout
+		}
+		return t
+	}
+	knownClasses := map[string]bool{}
+	for _, k := range loadKnown(env.VerifDir, m.ID) {
+		knownClasses[k.Class] = true
+	}
+	unlistedSoFar := func() bool { // (mu held) a violation outside the known-finding classes has already been recorded
+		for cls, n := range sum.ByClass {
+			if n > 0 && !knownClasses[cls] {
+				return true
+			}
+		}
+		return false
+	}
 	var allKeys []uint64
 	setAcc := map[string]map[string]struct{}{}
 	requeues := 0
@@ -119,7 +151,11 @@ func Supervise(m *Monitor, env *Env) *Summary {
 			sem <- struct{}{}
 			defer func() { <-sem }()
 			logf, _ := os.Create(out + ".log")
-			cmd := exec.Command("timeout", "-s", "QUIT", "-k", "20", fmt.Sprint(timeout), env.Self,
+			mu.Lock()
+			myTimeout := adaptive()
+			mu.Unlock()
+			started := time.Now()
+			cmd := exec.Command("timeout", "-s", "QUIT", "-k", "20", fmt.Sprint(myTimeout), env.Self,
 				"--worker", "--prop", m.ID, "--tier", env.Tier, "--seed", fmt.Sprint(env.Seed),
 				"--from", fmt.Sprint(bt.a), "--to", fmt.Sprint(bt.b), "--out", out)
 			cmd.Stdout = logf
@@ -144,6 +180,7 @@ func Supervise(m *Monitor, env *Env) *Summary {
 			mu.Lock()
 			sum.Batches++
 			if ok {
+				durs = append(durs, time.Since(started).Seconds())
 				mergeBatch(sum, &res, setAcc)
 				if kb, e := os.ReadFile(out + ".keys"); e == nil {
 					for i := 0; i+8 <= len(kb); i += 8 {
@@ -169,7 +206,7 @@ func Supervise(m *Monitor, env *Env) *Summary {
 			if code == 124 || code == 137 {
 				sum.Watchdogs++
 				sum.Inconclusive["watchdog"]++
-				sum.Extra["watchdog_case_"+fmt.Sprint(j)] = fmt.Sprintf("case %d exceeded the %ds batch watchdog (inconclusive)", j, timeout)
+				sum.Extra["watchdog_case_"+fmt.Sprint(j)] = fmt.Sprintf("case %d exceeded the %ds batch watchdog (inconclusive)", j, myTimeout)
 			} else {
 				sum.Crashes++
 				sum.NViolations++
@@ -184,6 +221,10 @@ func Supervise(m *Monitor, env *Env) *Summary {
 			requeues++
 			if requeues > maxRequeues {
 				sum.TooLittle = fmt.Sprintf("more than %d worker batches ended abnormally; giving up", maxRequeues)
+			} else if unlistedSoFar() {
+				// the verdict of the run is already "violated": the rest of an abnormally ended batch is not re-queued
+				sum.Inconclusive["not-explored-after-abnormal-batch-end"] += bt.b - bt.a - 1
+				sum.Evaluations += bt.b - bt.a - 1
 			} else {
 				if j > bt.a {
 					re = append(re, batch{bt.a, j})
